@@ -125,6 +125,12 @@ class Runner:
                         done = True
             with open(errp, "r", errors="replace") as f:
                 stderr = f.read()
+            blob = ""
+            try:
+                with open(os.path.join(wd, "case.blob"), "r", errors="replace") as f:
+                    blob = f.read(200000)
+            except OSError:
+                pass
             races = []
             for fn in os.listdir(wd):
                 if fn.startswith("race"):
@@ -138,9 +144,9 @@ class Runner:
                 break
             victim = last_begin if last_begin is not None else cur
             if timed_out:
-                timeouts.append({"idx": victim, "stderr": stderr[-6000:]})
+                timeouts.append({"idx": victim, "stderr": stderr[-6000:], "input": blob})
             else:
-                crashes.append({"idx": victim, "type": "death", "rc": p.returncode, "stderr": stderr[-12000:]})
+                crashes.append({"idx": victim, "type": "death", "rc": p.returncode, "stderr": stderr[-12000:], "input": blob})
             cur = victim + 1
         return obs, crashes, timeouts
 
@@ -265,7 +271,7 @@ def main(argv):
         elif c.get("rc") == 97:
             kind = "cpu_bound_exceeded"
         viols.append((c["idx"], {"kind": kind, "detail": "child exited with %s\n%s" % (c.get("rc"), c["stderr"][-5000:]),
-                                 "match": {"sig": sig}}, None))
+                                 "match": {"sig": sig}, "input": c.get("input")}, None))
     inconclusive = [o for o in all_obs if o.get("inconclusive")]
     for t in all_timeouts:
         inconclusive.append({"idx": t["idx"], "inconclusive": "wall-clock watchdog"})
